@@ -1568,7 +1568,7 @@ theorem advance_facts (p : PropSt) (us) :
     rw [this.2.2, List.length_cons]; omega
 
 theorem reset_facts (p : PropSt) (h : p.cfg.adaptive = true) :
-    p.reset.cfg = p.cfg ∧ p.reset.startStep = p.nsteps ∧ p.reset.raw = p.raw ∧ p.reset.events = [] := by
+    p.reset.cfg = p.cfg ∧ p.reset.startStep = max p.nsteps 1 ∧ p.reset.raw = p.raw ∧ p.reset.events = [] := by
   simp [PropSt.reset, h]
 
 theorem reset_nonadaptive (p : PropSt) (h : p.cfg.adaptive = false) : p.reset = p := by
